@@ -36,7 +36,21 @@ MANIFEST = dict(
          'written for the code with fixes/C16-*.patch applied.',
     design='7/C16')
 
-KNOWN_PRED = {}
+def _escapes_nonname(text):
+    """the text holds a backslash escape that stands for an ASCII character which is no letter, '_' or '-'"""
+    import re
+    for m in re.finditer(r'\\([0-9a-fA-F]{1,6})|\\([^0-9a-fA-F\n\r\f])', text):
+        c = chr(int(m.group(1), 16)) if m.group(1) and int(m.group(1), 16) <= 0x10ffff else (m.group(2) or '\ufffd')
+        if ord(c) < 128 and not (c.isalpha() or c in '_-'):
+            return True
+    return False
+
+
+KNOWN_PRED = {
+    # the same defect as C03-hex-escaped-punctuation-in-identifier / C03-ident-leading-digit-escape, seen at the selector
+    'C16-escaped-nonname-character-serialised-raw': lambda kind, case, detail: (
+        kind == 'roundtrip-accepted' and _escapes_nonname(case.get('text', ''))),
+}
 
 ITYPES = None
 
@@ -508,10 +522,49 @@ def namespaced_family(ctx):
                     got, want, texts_, back), KNOWN_PRED)
 
 
+def reassign_family(ctx, n):
+    """one Selector object assigned a sequence of texts (valid, respelled, rejected at every stage): after each
+    assignment it reports what a fresh Selector of the last accepted text reports - specificity, element, items, text"""
+    import cssutils
+    import xml.dom
+    from harness import impl
+    rng = ctx.rng
+    good = ['a', 'a.x', '#i div > p', 'a:not(.b)', '*', 'a[b=c]:hover', 'ul li::after', 'a + b ~ c', ':not(#i)', 'x|y' if False else 'h1.t.u']
+    bad = ['#i div >', 'a:not(', 'a[b', 'a,', ', a', 'a..b', '#i #j [', 'div p +', 'a:not(b c)', '', '   ', 'a { }', '#i.c:not(#j', '[a=b] >', 'a::', 'a:not(:not(b))',
+           'x#i.c[d] ~']
+    for _ in range(n):
+        hist = [rng.choice(good)] + [rng.choice(good + bad + bad) for _ in range(rng.randrange(1, 5))]
+        for mode in (True, False):
+            impl.reset(raise_exceptions=mode)
+            ctx.case(('reassign', tuple(hist), mode))
+            try:
+                sel = cssutils.css.Selector(hist[0])
+                last = hist[0]
+                for t in hist[1:]:
+                    try:
+                        sel.selectorText = t
+                    except xml.dom.DOMException:
+                        pass
+                    try:    # what a fresh object makes of the text decides whether it counts as accepted
+                        if cssutils.css.Selector(t).wellformed:
+                            last = t
+                    except xml.dom.DOMException:
+                        pass
+                    want = observe_selector(cssutils.css.Selector(last))
+                    got = observe_selector(sel)
+                    if got != want:
+                        ctx.violation('reassign', {'history': hist[:hist.index(t) + 1] if t in hist else hist, 'raising_mode': mode, 'last_accepted': last},
+                                      'after assigning %r the object reports %r; a fresh Selector(%r) reports %r' % (t, got, last, want), KNOWN_PRED)
+                        break
+            except Exception as e:   # noqa
+                ctx.violation('raises', {'history': hist, 'raising_mode': mode}, '%s: %s' % (type(e).__name__, e), KNOWN_PRED)
+
+
 def run(ctx):
     rng = ctx.rng
     quick = ctx.tier == 'quick'
     namespaced_family(ctx)
+    reassign_family(ctx, 150 if quick else 6000)
     n_ast, n_mut, n_soup, n_hist = (2500, 3000, 2000, 400) if quick else (100000, 160000, 120000, 20000)
     ctx.cov['rule'] = ('selectors from the AST generator (1-4 compounds; type/universal with none, *| and | prefix; id, class, attribute '
                        'x 7 forms, pseudo-class, functional pseudo with an+b / ident / string arguments, :not(simple), one/two-colon and '
@@ -574,6 +627,30 @@ def run(ctx):
         ctx.case(('text', t))
         if o[0] == 'ok' and o[1] is None:
             nrej += 1
+        elif o[0] == 'ok':
+            # whatever is accepted: its serialisation reparses to the same simple selectors, combinators and specificity
+            st = o[1][3]
+            o2 = obs_of(st) if st != t else o
+            def strip(ob):
+                # comments aside; the argument of a functional pseudo (an+b, ident, string) as one text without white space
+                items, arg = [], None
+                for i in ob[2]:
+                    if i[0] in ('COMMENT',):
+                        continue
+                    if arg is not None:
+                        if i[0] == 'function-end':
+                            items.append(('argument', 0, ''.join(arg)))
+                            items.append(i)
+                            arg = None
+                        elif i[0] != 'S':
+                            arg.append(str(i[2]))
+                        continue
+                    items.append(i)
+                    if i[0] in ('pseudo-class', 'pseudo-element') and str(i[2]).endswith('('):
+                        arg = []
+                return (ob[0], ob[1], tuple(items))
+            if o2[0] != 'ok' or o2[1] is None or strip(o2[1]) != strip(o[1]) or o2[1][3] != st:
+                ctx.violation('roundtrip-accepted', {'text': t, 'serialised': st}, 'accepted as %r; its serialisation reads back as %r' % (o[1], o2[1]), KNOWN_PRED)
     ctx.extra['distribution'] = {'ast_selectors': len(ast_cases), 'ast_wellformed': nwf, 'other_texts': len(others),
                                  'other_rejected': nrej}
     # ---- correspondence: selector parse + prepare
